@@ -584,10 +584,13 @@ class _CUR(GreedySelector):
         orthogonalizes the features by those already selected, and computes their
         initial importance.
         """
+        # the residual of an already orthogonalized item is rounding noise of the
+        # working precision (single precision input is kept in single precision)
+        tolerance = max(self.tolerance, 100 * np.finfo(self.X_current_.dtype).eps)
         for c in self.selected_idx_:
             if self.recompute_every != 0 and (
                 np.linalg.norm(np.take(self.X_current_, [c], axis=self._axis))
-                > self.tolerance
+                > tolerance
                 * max(1.0, np.linalg.norm(np.take(X, [c], axis=self._axis)))
             ):
                 self._orthogonalize(last_selected=c)
@@ -771,10 +774,13 @@ class _PCovCUR(GreedySelector):
         self.X_ref_ = X
         self.y_ref_ = y
 
+        # the residual of an already orthogonalized item is rounding noise of the
+        # working precision (single precision input is kept in single precision)
+        tolerance = max(self.tolerance, 100 * np.finfo(self.X_current_.dtype).eps)
         for c in self.selected_idx_:
             if self.recompute_every != 0 and (
                 np.linalg.norm(np.take(self.X_current_, [c], axis=self._axis))
-                > self.tolerance
+                > tolerance
                 * max(1.0, np.linalg.norm(np.take(X, [c], axis=self._axis)))
             ):
                 self._orthogonalize(last_selected=c)
